@@ -41,7 +41,7 @@ CLAUSES = {
     "followed by a second pipelined request": "tie only: the C05 connection machine (same primitives) predicts the whole two-request trace, compared on every case",
 }
 PARALLEL = True
-CASE_TIMEOUT = 150
+CASE_TIMEOUT = 300
 
 CONNS = [None, "close", "keep-alive", "Keep-Alive", "CLOSE", "upgrade", "close, x", "x,Close", "keep-alive, x", "x , KEEP-ALIVE", "x"]
 METHODS = ["GET", "HEAD", "POST"]
